@@ -197,6 +197,67 @@ def gen_merge_case(rng, **o):
     return inp
 
 
+def gen_many(rng, **o):
+    """Stage 6: the MAGNITUDE of the ids.  A curated single directory with MORE THAN 256 templates (257..330; the exporter
+    and the loader combine template ids and cluster ids, so the products template id x number of clusters pass 2^16) whose
+    spike_templates file has any of the legal id dtypes - uint16 (the dtype phylib's own ALF export writes for
+    spikes.templates) as often as all the others together.  A few dozen spikes, most of them on templates of the upper
+    quarter of the id range; curation = splits into new ids above the highest template, renumbering of whole clusters, and
+    merges of two templates (at most 10 spikes in the merged cluster, template values multiples of lcm(1..10): integer
+    means).  Everything else tiny (2..3 channels, 2 samples)."""
+    o = dict(o)
+    nt = o.pop('nt', rng.randint(257, 330))
+    nspk = o.pop('nspk', rng.randint(12, 40))
+    hi = max(1, (nt * 3) // 4)
+    st = o.pop('st', None) or [rng.randrange(hi, nt) if rng.random() < 0.7 else rng.randrange(nt) for _ in range(nspk)]
+    nspk = len(st)
+    sc = o.pop('sc', None)
+    if sc is None:
+        sc = list(st)
+        for op in [rng.choice(['split', 'split', 'renumber', 'merge']) for _ in range(rng.randint(1, 3))]:
+            top = max(max(sc), nt - 1)
+            if op == 'split':
+                a = rng.choice(sc)
+                idx = [k for k in range(nspk) if sc[k] == a]
+                for k in idx[:max(1, len(idx) // 2)]:
+                    sc[k] = top + 1
+            elif op == 'renumber':
+                a = rng.choice(sorted(set(sc)))
+                new = top + rng.choice([1, 1, 2, 5])
+                sc = [new if c == a else c for c in sc]
+            else:
+                ids = sorted(set(sc))
+                if len(ids) >= 2:
+                    a, b = rng.sample(ids, 2)
+                    if sum(1 for c in sc if c in (a, b)) <= 10:
+                        sc = [top + 1 if c in (a, b) else c for c in sc]
+        if sc == st:
+            sc[0] = max(max(sc), nt - 1) + 1
+    inp = gen_single(rng, nt=nt, nspk=nspk, st=st, sc=sc, curated=False, empty='none', nsw=2, shanks=False,
+                     nc=o.pop('nc', rng.choice([2, 3])), table=o.pop('table', 'none'),
+                     features=o.pop('features', rng.choice(['none', 'none', 'full'])), zero_template=False,
+                     id_dtype=o.pop('id_dtype', rng.choice(['uint16', 'uint16', 'uint16', 'int32', 'uint32', 'int64'])), **o)
+    sem = inp['probes'][0]
+    sem['templates'] = [[[v * G.LCM10 for v in row] for row in tm] for tm in sem['templates']]
+    inp['opts'] = dict(inp['opts'], curated=True, many=True)
+    return inp
+
+
+def with_history(rng, inp, hist=None):
+    """Stage 6: reuse of one object.  `history` = the conversions made BEFORE the judged one in the same process on the
+    same loaded TemplateModel, each into its own fresh output directory: {'label', 'factor', 'force', 'same_creator'}
+    (same_creator: on the EphysAlfCreator object that also makes the judged conversion; else on a creator of its own)."""
+    inp = dict(inp)
+    if hist is None:
+        hist = []
+        for _ in range(rng.choice([1, 1, 2])):
+            hist.append({'label': rng.choice(['', 'raw', 'probe00', inp['label']]),
+                         'factor': rng.choice([f for f in (1.0, 2.0, 0.5, 2.5, 4.0) if f != inp['factor']] + [inp['factor']]),
+                         'force': rng.random() < 0.3, 'same_creator': rng.random() < 0.75})
+    inp['history'] = hist
+    return inp
+
+
 def gen_big(rng, n, **o):
     """A single uncurated directory of n spikes (n above get_depths' batch size of 50 000) that repeats a period of k
     spikes: spike j has the template, the amplitude and the feature row of spike j mod k.  The amplitudes are constant
